@@ -678,13 +678,24 @@ def _case_dict(cfg, applied, kind, extra):
     return d
 
 
+def _close(ctx, exe, suite, n):
+    if exe is None:
+        ctx.oblige(f"correspondence:{suite}", "correspondence", False, "model runner unavailable; implementation-only search ran %d histories" % n)
+        ctx.count(f"suite:{suite}", n)
+    else:
+        ctx.close_suite(suite, n)
+
+
 def check_batch(ctx, exe, world, batch, suite):
     """batch: list of (cfg, tokens).  Runs implementation then model, diffs snapshots, reports violations."""
     results = []
     for cfg, toks in batch:
         applied, snaps, viol, obs = run_history(world, cfg, toks)
         results.append((cfg, applied, snaps, viol))
-    msn = model_snaps(exe, [(c, a) for c, a, _, _ in results])
+    if exe is None:
+        msn = [None] * len(results)       # model runner unavailable: implementation-only search
+    else:
+        msn = model_snaps(exe, [(c, a) for c, a, _, _ in results])
     ran = 0
     for (cfg, applied, snaps, viol), ms in zip(results, msn):
         ran += 1
@@ -700,8 +711,10 @@ def check_batch(ctx, exe, world, batch, suite):
             ctx.count("outcome:" + tk.split("@")[0])
         ctx.traces_validated += 1
         # correspondence
-        mss = [strip_ghost(x) for x in ms]
-        if any("REJECT" in x or "NOTIDLE" in x or "bad=1" in y for x, y in zip(mss, ms)) or len(mss) != len(snaps):
+        mss = [strip_ghost(x) for x in ms] if ms is not None else None
+        if mss is None:
+            pass
+        elif any("REJECT" in x or "NOTIDLE" in x or "bad=1" in y for x, y in zip(mss, ms)) or len(mss) != len(snaps):
             ctx.disagreement(suite, {"cfg": cfg.to_json(), "tokens": applied}, ms[-1] if ms else None, "model rejected/did not quiesce")
         else:
             for j, (a, b) in enumerate(zip(mss, snaps)):
@@ -733,14 +746,14 @@ def run(ctx):
     ok, exe = build_model()
     ctx.oblige("model-runner-build", "correspondence", ok, "" if ok else exe)
     if not ok:
-        return
+        exe = None          # the property oracle still runs on the implementation
     rng = ctx.rng
     world = World()
     try:
         # 1. corpus
         cc = corpus_cases()
         n = check_batch(ctx, exe, world, cc, "corpus") if cc else 0
-        ctx.close_suite("corpus", max(n, 1) if cc else 1)
+        _close(ctx, exe, "corpus", max(n, 1) if cc else 1)
         # 2. enumerated short orderings on two tasks
         alpha = ["c0r", "c1k1001", "pc4001", "d", "x1", "x0", "a12", "pt", "qc4001", "r"]
         seps = [(1, 1, 1, 1), (0, 0, 0, 1), (1, 0, 0, 1), (0, 1, 0, 1)]
@@ -754,7 +767,7 @@ def run(ctx):
                 for toks in pick:
                     batch.append((cfg, ["c0r", "/"] + toks if rng.random() < 0.5 else toks))
         n = check_batch(ctx, exe, world, batch, "enumerated-orderings")
-        ctx.close_suite("enumerated-orderings", n)
+        _close(ctx, exe, "enumerated-orderings", n)
         # 3. random histories
         nrand = 1200 if ctx.quick else 40000
         batch = []
@@ -764,7 +777,7 @@ def run(ctx):
         n = 0
         for k in range(0, len(batch), 2000):
             n += check_batch(ctx, exe, world, batch[k:k + 2000], "random-histories")
-        ctx.close_suite("random-histories", n)
+        _close(ctx, exe, "random-histories", n)
         if batch:
             ctx.sample({"suite": "random-histories", "cfg": batch[-1][0].to_json(), "tokens": batch[-1][1]})
             ctx.sample({"suite": "random-histories", "cfg": batch[0][0].to_json(), "tokens": batch[0][1]})
